@@ -23,14 +23,16 @@ from gpytorch import variational as V
 from harness.drivers.C02 import prior_logpdf, make_prior, gen_prior, CLOSURE_T, CLOSURE_M, ConstLoss
 from harness.lib import common as C
 
-COQ_TARGETS = ["Models/C15_elbo.vo"]
+COQ_TARGETS = ["Models/C15_elbo.vo", "Models/C02_priors.vo"]
 LEVEL_NOTE = ("theorems are about the Gallina model; tie to /repo is differential (public outputs, float64 vs exact "
               "rationals + mpmath); the lower bound for all q, the NGD fixed point and gradients are tested, not proved")
 IMPORTS = ("From Coq Require Import List ZArith QArith Qcanon.\n"
-           "From GPV Require Import Base.LinAlg Base.Exec Base.Expr Models.C14_variational Models.C02_mll Models.C15_elbo.")
+           "From GPV Require Import Base.LinAlg Base.Exec Base.Expr Models.C14_variational Models.C02_mll Models.C02_priors Models.C15_elbo.")
 RUN_DEF = ("Inductive ccase := CE (c : elbo_case) | CB (c : nat * nat * list (list Qc) * list Qc * (Qc * Qc) * nat * list Qc"
-           " * list (list Qc) * list Qc * list Qc).\n"
-           "Definition run (c : ccase) : list Z := match c with CE x => run_elbo x | CB x => run_bound x end.")
+           " * list (list Qc) * list Qc * list Qc) | CEA (c : elbo_case) (t : mtree) (vals : list (nat * Qc))"
+           " | CNA (t : mtree) | CNP (t : mtree).\n"
+           "Definition run (c : ccase) : list Z := match c with CE x => run_elbo x | CB x => run_bound x"
+           " | CEA x t v => run_elbo (elbo_with_added x nil (added_values t v)) | CNA t => run_named_added t | CNP t => run_named t end.")
 
 torch.set_default_dtype(torch.float64)
 
@@ -241,18 +243,37 @@ KERNELS = ["rbf", "matern25", "scale_rbf", "rbf+linear"]
 GRAD_H, GRAD_RTOL, GRAD_ATOL = 1e-4, 1e-5, 1e-7
 
 
+def innermost_kernel(kern):
+    """the kernel that owns the lengthscale: below DyadicKernel / ScaleKernel wrappers"""
+    while hasattr(kern, "base_kernel"):
+        kern = kern.base_kernel
+    return kern
+
+
 class SVGP(gpytorch.models.ApproximateGP):
-    def __init__(self, make_strategy, mean, kern, added=()):
+    """added = [(where, value)]: added-loss terms registered on the model, on the (outer) kernel or on the INNER kernel
+    (`shared`).  shared_handle: the model keeps a second handle to the inner kernel (model.base_kernel next to
+    model.covar_module....base_kernel, the pattern of gpytorch's SGPR / deep-kernel examples), so that this module - with its
+    priors and added-loss terms - is reachable from the model along two paths."""
+
+    def __init__(self, make_strategy, mean, kern, added=(), shared_handle=False):
         super().__init__(make_strategy(self))
         self.mean_module, self.covar_module = mean, kern
+        if shared_handle:
+            self.base_kernel = innermost_kernel(kern)
         self._added = list(added)
+        self._verif_terms = {}          # the harness' own record: registration index -> (module, name, current term object)
         for i, (where, _) in enumerate(self._added):
-            (self if where == "model" else self.covar_module).register_added_loss_term("verif_loss_%d" % i)
+            self._site(where).register_added_loss_term("verif_loss_%d" % i)
+
+    def _site(self, where):
+        return self if where == "model" else innermost_kernel(self.covar_module) if where == "shared" else self.covar_module
 
     def forward(self, x):
         for i, (where, val) in enumerate(self._added):
-            (self if where == "model" else self.covar_module).update_added_loss_term(
-                "verif_loss_%d" % i, ConstLoss(torch.tensor(val)))
+            term = ConstLoss(torch.tensor(val))
+            self._site(where).update_added_loss_term("verif_loss_%d" % i, term)
+            self._verif_terms[i] = (self._site(where), "verif_loss_%d" % i, term)
         return gpytorch.distributions.MultivariateNormal(self.mean_module(x), self.covar_module(x))
 
 
@@ -288,8 +309,16 @@ def _gen_case(rng, tier, family):
         B = rng.randint(1, min(4, ntot))
         c.update(batch=sorted(rng.sample(range(ntot), B)), beta=rng.choice([0.1, 0.5, 1.0, 1.0, 2.0]),
                  num_data=rng.choice([B, ntot, ntot, ntot + 3, 10, 100]),
-                 priors=gen_priors(rng), added=[dict(where=rng.choice(["model", "kernel"]), value=rng.randint(-40, 40) / 16.0)
+                 priors=gen_priors(rng), added=[dict(where=rng.choice(["model", "kernel", "shared"]), value=rng.randint(-40, 40) / 16.0)
                                                  for _ in range(rng.choice([0, 0, 1, 2]))])
+        # a sub-module reachable under two names (second handle to the inner kernel): its priors and added-loss terms
+        # must enter every objective once
+        c["shared_handle"] = rng.random() < 0.35
+        if c["shared_handle"]:
+            if not any(a["where"] == "shared" for a in c["added"]):
+                c["added"].append(dict(where="shared", value=rng.randint(4, 40) / 16.0))
+            if not any(p["target"] == "lengthscale" for p in c["priors"]) and rng.random() < 0.7:
+                c["priors"].append(dict(target="lengthscale", spec=gen_prior(rng), closure="id"))
     elif family == "bound":
         ntot = rng.randint(2, 4 if not big else 6)
         c.update(ntot=ntot, batch=list(range(ntot)), beta=1.0, num_data=ntot, priors=[], added=[], lik="gaussian",
@@ -380,7 +409,9 @@ def build(case):
     vd = D14.make_dist(case["dist"], m, pb)
     cls = V.VariationalStrategy if case["strat"] == "vs" else V.UnwhitenedVariationalStrategy
     added = [(a["where"], a["value"]) for a in case.get("added", [])]
-    b.model = SVGP(lambda mod: cls(mod, Z, vd, learn_inducing_locations=True, jitter_val=JIT), mean, kern, added)
+    b.model = SVGP(lambda mod: cls(mod, Z, vd, learn_inducing_locations=True, jitter_val=JIT), mean, kern, added,
+                   shared_handle=bool(case.get("shared_handle")))
+    b.prior_regs = []           # the harness' own record of prior registrations: (module, name, prior object)
     b.vs, b.dist = b.model.variational_strategy, vd
     D14.mark_initialized(b.vs)
     D14.fill_dist(vd, case["dist"], m, pb, rng)
@@ -394,8 +425,10 @@ def build(case):
     for i, p in enumerate(case.get("priors", [])):
         if p["target"] in tg:
             mod, attr = tg[p["target"]]
-            mod.register_prior("verif_prior_%d" % i, make_prior(p["spec"]),
+            pr = make_prior(p["spec"])
+            mod.register_prior("verif_prior_%d" % i, pr,
                                (lambda a, g: (lambda mm: g(getattr(mm, a))))(attr, CLOSURE_T[p["closure"]]))
+            b.prior_regs.append((mod, "verif_prior_%d" % i, pr))
     b.idx = list(case["batch"])
     b.X = b.Xall[..., b.idx, :]; b.y = b.yall[..., b.idx]
     return b
@@ -478,12 +511,39 @@ def root_L(K, m):
     return np.linalg.cholesky(A)
 
 
+def module_tree(root, regs):
+    """`root` as the Coq model's mtree (Models/C02_priors.v): structure from named_children (public torch API), the
+    registrations of a module from the harness' own record regs = [(module, name, object)].
+    -> (Coq term, {id(module): number}, {name: number}, {id(object): number})"""
+    ids, names, oids, by_mod = {}, {}, {}, {}
+    for mod, name, obj in regs:
+        by_mod.setdefault(id(mod), []).append((names.setdefault(name, len(names)), oids.setdefault(id(obj), len(oids))))
+
+    def walk(mod):
+        me = ids.setdefault(id(mod), len(ids))
+        ps = "; ".join("(%d%%nat, %d%%nat)" % q for q in by_mod.get(id(mod), []))
+        ch = "; ".join(walk(c) for _, c in mod.named_children())
+        return "(MNode %d%%nat [%s] [%s])" % (me, ps, ch)
+    return walk(root), ids, names, oids
+
+
+def added_tree(b):
+    """(tree of the model with its added-loss registrations, [(term object number, value)]); call after a forward pass"""
+    regs = [b.model._verif_terms[i] for i in sorted(b.model._verif_terms)]
+    tree, ids, names, oids = module_tree(b.model, regs)
+    vals = [(oids[id(term)], b.case["added"][i]["value"]) for i, (_, _, term) in sorted(b.model._verif_terms.items())]
+    return tree, names, oids, vals
+
+
 def elbo_terms(b):
-    """one Coq term per batch element"""
+    """one Coq term per batch element.  WHICH added-loss terms enter is decided by the Coq traversal model of
+    Module.named_added_loss_terms on the model's module tree (CEA: added_values tree values)"""
     case = b.case
     m, n = case["m"], len(b.idx)
     Ks, mus = prior_pieces(b)
-    add = [a["value"] for a in case.get("added", [])]
+    add = []
+    tree, _, _, vals = added_tree(b)
+    vlit = "[%s]" % "; ".join("(%d%%nat, %s)" % (o, C.qc_lit(v)) for o, v in vals)
     out = []
     for bi in range(b.nb):
         pri = [float(v) for v in expected_priors(b, bi)]
@@ -493,10 +553,10 @@ def elbo_terms(b):
             strat, jxx, L = 1, JIT, root_L(K, m).tolist()
         else:
             strat, jxx, L = 0, 0.0, [[0.0]]
-        out.append("CE (%d%%nat, (%d%%nat, %d%%nat), %s, %s, (%s, %s), %d%%nat, %s, %s, %s, %s, %s, (%s, %s), %s, %s)" % (
+        out.append("CEA (%d%%nat, (%d%%nat, %d%%nat), %s, %s, (%s, %s), %d%%nat, %s, %s, %s, %s, %s, (%s, %s), %s, %s) " % (
             strat, m, n, C.qc_mat(K), C.qc_vec(mu), C.qc_lit(JIT), C.qc_lit(jxx), D14.KIND[case["dist"]], C.qc_vec(p1), C.qc_mat(p2),
             C.qc_mat(L), C.qc_vec(y_vec(b, bi)), C.qc_vec(noise_vec(b, bi)), C.qc_lit(case["beta"]), C.qc_lit(case["num_data"]),
-            C.qc_vec(pri) if pri else "(@nil Qc)", C.qc_vec(add) if add else "(@nil Qc)"))
+            C.qc_vec(pri) if pri else "(@nil Qc)", C.qc_vec(add) if add else "(@nil Qc)") + "%s %s" % (tree, vlit))
     return out
 
 
@@ -573,7 +633,7 @@ def set_qu(b, means, covs):
 
 def short(case):
     return {k: case[k] for k in ("family", "strat", "dist", "m", "ntot", "d", "kernel", "mean", "lik", "batch", "beta",
-                                 "num_data", "hseed", "bshape", "bpat", "lbatch") if k in case} | dict(
+                                 "num_data", "hseed", "bshape", "bpat", "lbatch", "shared_handle") if k in case} | dict(
         npriors=len(case.get("priors", [])), nadded=len(case.get("added", [])))
 
 
@@ -586,21 +646,79 @@ def btag(case):
     return (":batch-" + case["bpat"]) if case.get("bshape") else ""
 
 
-def ngd_step_value(case):
+NGD_CONFIGS = ("plain", "groups", "group-lr", "gradless-first", "gradless-interleaved", "frozen-first", "hybrid-adam",
+               "two-models:other-first", "two-models:other-last")
+
+
+def ngd_step_value(case, cfg="plain"):
     """one natural-gradient step of size one on the full-batch ELBO (summed over the batch of models: the elements have
-    separate variational parameters) from the case's q(u); returns N * ELBO afterwards, per batch element"""
+    separate variational parameters) from the case's q(u); returns N * ELBO afterwards, per batch element.
+    cfg = how the optimiser is set up (all are usage patterns of gpytorch.optim.NGD in the tutorials / in multi-model code):
+      plain                 NGD(model.variational_parameters())
+      groups                one parameter group per natural parameter
+      group-lr              the step size given per group ({"params": .., "lr": 1.0}) with another default lr
+      gradless-first        a parameter that receives no gradient in this step (grad None) listed BEFORE the natural parameters
+      gradless-interleaved  such parameters before, between and after the natural parameters
+      frozen-first          a requires_grad=False parameter listed first
+      hybrid-adam           NGD on the variational parameters + Adam on hyperparameters / likelihood (the tutorial's loop:
+                            both zero_grad, backward, both step); N*ELBO is read between the two steps
+      two-models:other-first / other-last   ONE NGD shared by two models (two variational distributions), only this model's
+                            ELBO is back-propagated; the other model's parameters come first / last in the group and must not move"""
     b = build(dict(case, dist="natural"))
     b.model.train(); b.lik.train()
     N = case["num_data"]
     mll = gpytorch.mlls.VariationalELBO(b.lik, b.model, num_data=N)
-    opt = gpytorch.optim.NGD(b.model.variational_parameters(), num_data=N, lr=1.0)
+    nat = list(b.model.variational_parameters())
+    dummy = lambda k=3: torch.nn.Parameter(torch.ones(k))      # noqa: E731
+    other, extra_opt, watch = None, None, []
+    if cfg == "plain":
+        opt = gpytorch.optim.NGD(b.model.variational_parameters(), num_data=N, lr=1.0)
+    elif cfg == "groups":
+        opt = gpytorch.optim.NGD([{"params": [p]} for p in nat], num_data=N, lr=1.0)
+    elif cfg == "group-lr":
+        opt = gpytorch.optim.NGD([{"params": nat, "lr": 1.0}], num_data=N, lr=0.125)
+    elif cfg == "gradless-first":
+        watch = [dummy()]
+        opt = gpytorch.optim.NGD(watch + nat, num_data=N, lr=1.0)
+    elif cfg == "gradless-interleaved":
+        watch = [dummy(2), dummy(1), dummy(4)]
+        plist = [watch[0]]
+        for p in nat:
+            plist += [p, watch[1]] if p is nat[0] else [p]
+        opt = gpytorch.optim.NGD(plist + [watch[2]], num_data=N, lr=1.0)
+    elif cfg == "frozen-first":
+        watch = [torch.nn.Parameter(torch.ones(2), requires_grad=False)]
+        opt = gpytorch.optim.NGD(watch + nat, num_data=N, lr=1.0)
+    elif cfg == "hybrid-adam":
+        opt = gpytorch.optim.NGD(nat, num_data=N, lr=1.0)
+        extra_opt = torch.optim.Adam([{"params": list(b.model.hyperparameters())}, {"params": list(b.lik.parameters())}], lr=0.01)
+    elif cfg.startswith("two-models"):
+        other = build(dict(case, dist="natural", hseed=case["hseed"] + 1))
+        other.model.train()
+        watch = list(other.model.variational_parameters())
+        opt = gpytorch.optim.NGD(watch + nat if cfg.endswith("other-first") else nat + watch, num_data=N, lr=1.0)
+    else:
+        raise ValueError(cfg)
+    before = [w.detach().clone() for w in watch]
     opt.zero_grad()
+    if extra_opt is not None:
+        extra_opt.zero_grad()
     with gs.debug(False):
         loss = -mll(b.model(b.X), b.y).sum()
         loss.backward()
         opt.step()
         with torch.no_grad():
-            return [N * float(v) for v in mll(b.model(b.X), b.y).reshape(-1)]
+            vals = [N * float(v) for v in mll(b.model(b.X), b.y).reshape(-1)]
+        if extra_opt is not None:
+            extra_opt.step()
+    moved = [i for i, (w, w0) in enumerate(zip(watch, before)) if not torch.equal(w.detach(), w0)]
+    if moved:
+        raise OtherMoved("a parameter without gradient in this step (position %d of the watched ones) was changed by NGD.step" % moved[0])
+    return vals
+
+
+class OtherMoved(Exception):
+    pass
 
 
 def grad_plan(case):
@@ -655,7 +773,7 @@ def run(out, ctx):
                 "case (q(u) is random, never the prior)" % (4 if tier == "quick" else 5, 6 if tier == "quick" else 8))
     out.extra["tolerances"] = {"objective": TOL, "bound slack": 1e-8, "ELBO(q*) / NGD step vs collapsed bound": 1e-6,
                                 "gradient": "rtol %g atol %g, h=%g" % (GRAD_RTOL, GRAD_ATOL, GRAD_H)}
-    built, coq, owner = [], [], []
+    built, coq, owner, impl_named = [], [], [], {}
     for ci, case in enumerate(cases):
         try:
             b = build(case)
@@ -664,6 +782,17 @@ def run(out, ctx):
             if case["family"] == "bound":
                 for bi, t in enumerate(bound_terms(b)):
                     coq.append(t); owner.append(("bound", ci, bi))
+            if case["family"] == "objective":
+                # WHICH added-loss terms / priors the objective sees, against the traversal model of the same module tree
+                tree, names, oids, _ = added_tree(b)
+                coq.append("CNA " + tree); owner.append(("named-added", ci, 0))
+                impl_named[("added", ci)] = sorted((names.get(full.rsplit(".", 1)[-1], -1), oids.get(id(term), -1))
+                                                   for full, term in b.model.named_added_loss_terms())
+                mll_ = gpytorch.mlls.VariationalELBO(b.lik, b.model, num_data=case["num_data"])
+                ptree, pmods, pnames, poids = module_tree(mll_, b.prior_regs)
+                coq.append("CNP " + ptree); owner.append(("named-priors", ci, 0))
+                impl_named[("priors", ci)] = sorted((pmods.get(id(mod), -1), pnames.get(full.rsplit(".", 1)[-1], -1), poids.get(id(pr), -1))
+                                                    for full, mod, pr, _c, _s in mll_.named_priors())
         except Exception as e:  # noqa: BLE001
             out.fail("impl-exception:build:%s:%s:%s%s" % (case["strat"], case["dist"], type(e).__name__, btag(case)),
                      "constructing the model / reading its prior raised %r" % e, dict(case=case))
@@ -693,6 +822,23 @@ def run(out, ctx):
         out.count("dist=" + case["dist"]); out.count("lik=" + case["lik"]); out.count("beta=%g" % case["beta"])
         out.count("B=%d" % n); out.count("num_data%sB" % ("==" if case["num_data"] == n else "!="))
         out.count("batch=%s" % (("%s:%s" % ("x".join(map(str, case["bshape"])), case["bpat"])) if bt else "none"))
+        sh_ = ":shared-handle" if case.get("shared_handle") else ""
+        out.count("shared-handle=%s" % bool(case.get("shared_handle")))
+        if ("added", ci) in impl_named:
+            (_, ra), = dec[("named-added", ci)]
+            want_a = sorted((ra[k + 1], ra[k + 2]) for k in range(0, len(ra), 3))
+            out.case(dict(desc, check="named_added_loss_terms", nterms=len(want_a)), len(want_a) >= 1, label="named-added" + sh_)
+            if impl_named[("added", ci)] != want_a:
+                out.fail("named-added%s" % sh_, "Module.named_added_loss_terms does not yield every distinct term object exactly once "
+                         "((name, term object) numbers; -1 = not a registered one)", dict(case=case, which="named"),
+                         impl=[list(t) for t in impl_named[("added", ci)]], model=[list(t) for t in want_a])
+            (_, rp), = dec[("named-priors", ci)]
+            want_p = sorted((rp[k], rp[k + 1], rp[k + 2]) for k in range(0, len(rp), 3))
+            out.case(dict(desc, check="named_priors", nregs=len(want_p)), len(want_p) >= 1, label="named-priors" + sh_)
+            if impl_named[("priors", ci)] != want_p:
+                out.fail("named-priors%s" % sh_, "named_priors of the objective does not yield every registration of every distinct module "
+                         "exactly once ((module, name, prior object) numbers)", dict(case=case, which="named"),
+                         impl=[list(t) for t in impl_named[("priors", ci)]], model=[list(t) for t in want_p])
         if any(d is None for d in ds):
             out.fail("model:rejects:%s" % tag, "the model could not evaluate the case (singular matrix)", dict(case=case))
             continue
@@ -706,7 +852,7 @@ def run(out, ctx):
             for bi, (v, d) in enumerate(zip(vs, ds)):
                 if not C.close(v, d[which], TOL, TOL):
                     key = "%s:%s:%s%s%s%s" % (which, tag, "minibatch" if case["num_data"] != n else "fullbatch",
-                                              ":priors" if case.get("priors") else "", ":added" if case.get("added") else "", bt)
+                                              ":priors" if case.get("priors") else "", ":added" if case.get("added") else "", sh_ + bt)
                     out.fail(key, "%s differs from its definition" % cls, dict(case=case, which=which, batch_element=bi),
                              impl=v, model=float(d[which]))
                     break
@@ -774,17 +920,22 @@ def run(out, ctx):
                     out.fail("bound:optimal-q:%s%s" % (tag, bt), "with q(u) = exact posterior over u, N*ELBO is not the collapsed bound",
                              dict(case=case, which="bound", batch_element=bi), impl=v2, model=coll)
                     break
-        # one NGD step of size one reaches the optimum
-        try:
-            v3s = ngd_step_value(case)
-            out.case(dict(desc, check="ngd"), True, label="ngd-step" + (":batched" if bt else ""))
-            for bi, (v3, coll) in enumerate(zip(v3s, colls)):
-                if abs(v3 - coll) > 1e-6 * (1 + abs(coll)):
-                    out.fail("bound:ngd-step:%s%s" % (case["strat"], bt), "one natural-gradient step of size one does not land on the collapsed bound",
-                             dict(case=case, which="ngd", batch_element=bi), impl=v3, model=coll)
-                    break
-        except Exception as e:  # noqa: BLE001
-            out.fail("impl-exception:ngd:%s:%s%s" % (case["strat"], type(e).__name__, bt), "NGD step raised %r" % e, dict(case=case, which="ngd"))
+        # one NGD step of size one reaches the optimum -- in every optimiser configuration
+        for cfg in NGD_CONFIGS:
+            try:
+                v3s = ngd_step_value(case, cfg)
+                out.case(dict(desc, check="ngd", optimiser=cfg), True, label="ngd-step" + (":batched" if bt else ""))
+                out.count("ngd-config=" + cfg)
+                for bi, (v3, coll) in enumerate(zip(v3s, colls)):
+                    if abs(v3 - coll) > 1e-6 * (1 + abs(coll)):
+                        out.fail("bound:ngd-step:%s:%s%s" % (case["strat"], cfg, bt), "one natural-gradient step of size one (optimiser set-up: %s) "
+                                 "does not land on the collapsed bound" % cfg, dict(case=case, which="ngd", optimiser=cfg, batch_element=bi), impl=v3, model=coll)
+                        break
+            except OtherMoved as e:
+                out.fail("bound:ngd-step:%s:%s:moves-gradless%s" % (case["strat"], cfg, bt), str(e), dict(case=case, which="ngd", optimiser=cfg))
+            except Exception as e:  # noqa: BLE001
+                out.fail("impl-exception:ngd:%s:%s:%s%s" % (case["strat"], cfg, type(e).__name__, bt), "NGD step (optimiser set-up: %s) raised %r" % (cfg, e),
+                         dict(case=case, which="ngd", optimiser=cfg))
     # ---- gradients
     for gi, case in enumerate(grads):
         vals = {}
@@ -824,6 +975,19 @@ def replay(path):
             print("batch element", bi, which, "impl", v, "model", float(dd[which]))
             print("  model q(f) mean", [float(x) for x in dd["mean"]], "var", [float(x) for x in dd["var"]], "KL", float(dd["kl"]))
             bad = bad or not C.close(v, dd[which], TOL, TOL)
+    elif which == "named":
+        elbo_terms(b)           # a forward pass: the added-loss terms exist
+        tree, names, oids, _ = added_tree(b)
+        mll_ = gpytorch.mlls.VariationalELBO(b.lik, b.model, num_data=case["num_data"])
+        ptree, pmods, pnames, poids = module_tree(mll_, b.prior_regs)
+        ra, rp = C.coq_run_cases("C15_replay", IMPORTS, RUN_DEF, ["CNA " + tree, "CNP " + ptree])
+        got_a = sorted((names.get(full.rsplit(".", 1)[-1], -1), oids.get(id(term), -1)) for full, term in b.model.named_added_loss_terms())
+        want_a = sorted((ra[k + 1], ra[k + 2]) for k in range(0, len(ra), 3))
+        got_p = sorted((pmods.get(id(mod), -1), pnames.get(full.rsplit(".", 1)[-1], -1), poids.get(id(pr), -1)) for full, mod, pr, _c, _s in mll_.named_priors())
+        want_p = sorted((rp[k], rp[k + 1], rp[k + 2]) for k in range(0, len(rp), 3))
+        print("model tree", tree); print("impl  named_added_loss_terms (name, object)", got_a); print("model", want_a)
+        print("objective tree", ptree); print("impl  named_priors (module, name, object)", got_p); print("model", want_p)
+        bad = got_a != want_a or got_p != want_p
     elif which == "grad":
         bad = False
         for ent in grad_plan(case):
@@ -840,7 +1004,7 @@ def replay(path):
         nels = [N * v for v in as_list(objective(build(case), "elbo"))]
         b2 = build(case)
         set_qu(b2, [[float(v) for v in bd["mopt"]] for bd in bds], [[[float(v) for v in r_] for r_ in bd["Sopt"]] for bd in bds])
-        v2s = [N * v for v in as_list(objective(b2, "elbo"))]; v3s = ngd_step_value(case)
+        v2s = [N * v for v in as_list(objective(b2, "elbo"))]; v3s = ngd_step_value(case, info.get("optimiser", "plain"))
         bad = False
         for bi, (bd, nel, v2, v3) in enumerate(zip(bds, nels, v2s, v3s)):
             print("batch element", bi, "N*ELBO impl", nel, "model", float(bd["nelbo"]), "exact MLL", float(bd["exact"]), "collapsed",
